@@ -8,6 +8,10 @@
    Library behaviour is never axiomatised: regex search and the legacy "pattern is an expression"
    evaluation are parameters of the semantic functions (Section variables in Proofs.v).
 
+   The model describes the tree AFTER the adopted fixes: the pattern is written as an escaped literal
+   ([quote_body]), `[amount=N]` is emitted as abs(amount - N) < 0.01, the loader strips the Merchant /
+   Category / Subcategory cells ([loader_cells]) and the converter skips rows without category and tags.
+
    Money: Z in units of 1/6400 (0.01 = 64 units, 1/128 = 50 units).  Dates: proleptic Gregorian ordinals.
    Strings: bytes (UTF-8).  No proofs in this file. *)
 From Coq Require Import String Ascii List Bool ZArith NArith.
@@ -161,6 +165,13 @@ Fixpoint lex_body (s : string) : bool :=
   end.
 Definition lex_ok (s : string) : bool := (negb (sexists is_ctl s) && lex_body s)%bool.
 
+(* merchant_engine._quote_pattern: backslash and double quote are escaped, everything else is written as is *)
+Fixpoint quote_body (s : string) : string :=
+  match s with
+  | EmptyString => EmptyString
+  | String c r => if (is_bs c || is_dq c)%bool then String (chr 92) (String c (quote_body r)) else String c (quote_body r)
+  end.
+
 (* lexical scan of a whole expression line: Some true = the line ends inside a string literal (CPython's
    tokenizer raises SyntaxError whatever the grammar), Some false = every literal is closed,
    None = an f-string prefix or a comment was met (not modelled). *)
@@ -255,6 +266,16 @@ Record csv_rule := { pat : string; amts : list acond; dates : list dcond;
                      merchant : string; category : string; subcategory : string; tags : list string }.
 Record txn := { desc : string; amount : Z; date : Z }.
 
+(* load_merchant_rules: the Merchant / Category / Subcategory cells are stripped (a missing cell is "") *)
+Definition loader_cells (r : csv_rule) : csv_rule :=
+  {| pat := pat r; amts := amts r; dates := dates r; merchant := strip (merchant r); category := strip (category r);
+     subcategory := strip (subcategory r); tags := tags r |}.
+Definition cells_stripped (r : csv_rule) : bool :=
+  (trimmed (merchant r) && trimmed (category r) && trimmed (subcategory r))%bool.
+(* a row that never had any effect: no category, no tags (the converter writes a comment instead of a block) *)
+Definition noop_rule (r : csv_rule) : bool :=
+  (negb (nonempty (strip (category r))) && match tags r with [] => true | _ => false end)%bool.
+
 Definition is_rel (c : dcond) : bool := match c with DRel _ => true | _ => false end.
 
 (* ------------------------------------------------------------------ (a) the text generator *)
@@ -264,7 +285,7 @@ Definition aop_text (o : aop) : string :=
 Definition acond_text (c : acond) : string :=
   match a_op c with
   | ARange => "amount >= " ++ render_money (a_v c) ++ " and amount <= " ++ render_money (a_hi c)
-  | AEq => "amount == " ++ render_money (a_v c)
+  | AEq => "abs(amount - " ++ render_money (a_v c) ++ ") < 0.01"
   | o => "amount " ++ aop_text o ++ " " ++ render_money (a_v c)
   end.
 Definition dcond_text (c : dcond) : string :=
@@ -279,10 +300,11 @@ Definition modifier_text (r : csv_rule) : string :=
 Definition modifier_kept (r : csv_rule) : bool :=
   let me := modifier_text r in (nonempty me && negb (starts_with "#" me))%bool.
 Definition match_text (r : csv_rule) : string :=
-  let parts := app (if nonempty (pat r) then ["regex(" ++ dq ++ pat r ++ dq ++ ")"] else [])
+  let parts := app (if nonempty (pat r) then ["regex(" ++ dq ++ quote_body (pat r) ++ dq ++ ")"] else [])
                    (if modifier_kept r then [modifier_text r] else []) in
   match parts with [] => "true" | _ => join " and " parts end.
 Definition block_lines (r : csv_rule) : list string :=
+  if noop_rule r then ["# Skipped (no category or tags): " ++ pat r; ""] else
   app ["[" ++ merchant r ++ "]"; "match: " ++ match_text r; "category: " ++ category r; "subcategory: " ++ subcategory r]
       (app (match tags r with [] => [] | tg => ["tags: " ++ join ", " tg] end) [""]).
 Definition header_lines : list string :=
@@ -295,7 +317,7 @@ Definition gen_content (rules : list csv_rule) : string :=
 
 (* ------------------------------------------------------------------ (b) reading the generated rule back *)
 Inductive cmp := CGt | CGe | CLt | CLe | CEq.
-Inductive eatom := ERegex (p : string) | EAmt (o : cmp) (v : Z) | EDate (o : cmp) (d : Z) | EMonth (m : Z).
+Inductive eatom := ERegex (p : string) | EAmt (o : cmp) (v : Z) | EAmtNear (v : Z) | EDate (o : cmp) (d : Z) | EMonth (m : Z).
 Record eng_rule := { e_name : string; e_cat : string; e_sub : string; e_tags : list string; e_match : list eatom }.
 Inductive lout (A : Type) := LOk (a : A) | LErr | LUnm.
 Arguments LOk {A} a. Arguments LErr {A}. Arguments LUnm {A}.
@@ -303,7 +325,7 @@ Arguments LOk {A} a. Arguments LErr {A}. Arguments LUnm {A}.
 Definition acond_atoms (c : acond) : list eatom :=
   match a_op c with
   | AGt => [EAmt CGt (a_v c)] | AGe => [EAmt CGe (a_v c)] | ALt => [EAmt CLt (a_v c)] | ALe => [EAmt CLe (a_v c)]
-  | AEq => [EAmt CEq (a_v c)]
+  | AEq => [EAmtNear (a_v c)]                                   (* abs(amount - v) < 0.01 *)
   | ARange => [EAmt CGe (a_v c); EAmt CLe (a_hi c)]
   end.
 Definition dcond_atoms (c : dcond) : list eatom :=
@@ -321,8 +343,8 @@ Definition load_match (r : csv_rule) : lout (list eatom) :=
   let mods := if modifier_kept r then app (flat_map acond_atoms (amts r)) (flat_map dcond_atoms (dates r)) else [] in
   let dangling := (modifier_kept r && existsb is_rel (dates r))%bool in
   if nonempty (pat r) then
-    if lex_ok (pat r) then
-      match unesc (pat r) with
+    if lex_ok (quote_body (pat r)) then
+      match unesc (quote_body (pat r)) with
       | UVal s => if dangling then LErr else LOk (ERegex s :: mods)
       | UErr => LErr
       | UUnm => LUnm
@@ -354,8 +376,9 @@ Definition fields_modelled (r : csv_rule) : bool :=
   negb (sexists is_ctl (pat r) || sexists is_ctl (merchant r) || sexists is_ctl (category r)
         || sexists is_ctl (subcategory r) || existsb (sexists is_ctl) (tags r) || existsb is_dynamic (tags r)).
 
-Definition load_rule (r : csv_rule) : lout eng_rule :=
+Definition load_rule (r : csv_rule) : lout (option eng_rule) :=
   if negb (fields_modelled r) then LUnm else
+  if noop_rule r then LOk None else
   let name := strip (merchant r) in
   if negb (nonempty name) then LErr else
   match load_match r with
@@ -364,7 +387,7 @@ Definition load_rule (r : csv_rule) : lout eng_rule :=
     let tg := match tags r with [] => [] | l => split_tags (strip (join ", " l)) end in
     if existsb is_dynamic tg then LUnm
     else if (negb (nonempty cat) && match tg with [] => true | _ => false end)%bool then LErr
-    else LOk {| e_name := name; e_cat := cat; e_sub := strip (subcategory r); e_tags := tg; e_match := m |}
+    else LOk (Some {| e_name := name; e_cat := cat; e_sub := strip (subcategory r); e_tags := tg; e_match := m |})
   | LErr => LErr
   | LUnm => LUnm
   end.
@@ -377,7 +400,8 @@ Fixpoint load_all (rules : list csv_rule) : lout (list eng_rule) :=
     match load_rule r, load_all rs with
     | LUnm, _ | _, LUnm => LUnm
     | LErr, _ | _, LErr => LErr
-    | LOk e, LOk es => LOk (e :: es)
+    | LOk (Some e), LOk es => LOk (e :: es)
+    | LOk None, LOk es => LOk es
     end
   end.
 
@@ -449,6 +473,7 @@ Section Semantics.
     match a with
     | ERegex p => re_search p (desc t)
     | EAmt o v => Some (cmpZ o (amount t) v)
+    | EAmtNear v => Some (Z.ltb (Z.abs (amount t - v)) CENT)
     | EDate o d => Some (cmpZ o (date t) d)
     | EMonth m => Some (Z.eqb (month_of (date t)) m)
     end.
@@ -481,18 +506,19 @@ Definition res_equiv (a b : result) : Prop :=
 Definition is_plain_tag_char (c : ascii) : bool := negb (is_lpar c || is_rpar c || is_comma c).
 Definition safe_tag (t : string) : bool :=
   (trimmed t && nonempty t && negb (sexists (fun c => negb (is_plain_tag_char c)) t) && negb (is_dynamic t))%bool.
-Definition safe_acond (c : acond) : bool :=
-  match a_op c with AEq => Z.eqb (a_v c mod CENT) 0 | _ => true end.
+(* what is left of the guard after the adopted fixes (each conjunct is one remaining known finding or a
+   boundary of the model):
+     fields_modelled         no newline / CR / NUL inside a cell, no dynamic {expr} tag        (model boundary)
+     nonempty merchant       or the row is a no-op: a blank Merchant cell emits `[]`           (C14/blank-merchant)
+     safe_tag                tags without , ( )                                               (C14/comma-in-tag)
+     not legacy_is_expr      the legacy loop evaluates such patterns as expressions           (C14/legacy-paren-...)
+     no relative date        [date:lastNdays] has no expression equivalent                    (C14/relative-date-modifier) *)
 Definition safe_rule (r : csv_rule) : bool :=
   (fields_modelled r
-   && trimmed (merchant r) && nonempty (merchant r) && trimmed (category r) && trimmed (subcategory r)
-   && (nonempty (category r) || match tags r with [] => false | _ => true end)
+   && (nonempty (strip (merchant r)) || noop_rule r)
    && forallb safe_tag (tags r)
-   && lex_ok (pat r) && esc_free (pat r)
    && negb (legacy_is_expr (pat r))
-   && negb (existsb is_rel (dates r))
-   && forallb safe_acond (amts r))%bool.
-Definition whole_cents (t : txn) : bool := Z.eqb (amount t mod CENT) 0.
+   && negb (existsb is_rel (dates r)))%bool.
 
 (* ------------------------------------------------------------------ a table-driven regex oracle (for running the model) *)
 Fixpoint tbl_lookup (tbl : list (string * string * option bool)) (p d : string) : option (option bool) :=
